@@ -554,3 +554,70 @@ Proof.
   apply G; [apply terminal_keys_nodup|].
   intros j Hj. destruct (terminal_keys_spec a j Hj) as [c [Hc Hl]]. exists c. split; [exact Hc|]. split; [exact Hl|]. eapply Hle; eauto.
 Qed.
+
+(* ---------------------------------------------------------------- the hypothesis on the leaves is itself preserved, so compositions chain *)
+Lemma add_child_leaves_empty K a p l v key a' : aget a key = None -> leaves_empty K a ->
+  add_child K a p l v key = Some a' -> leaves_empty K a'.
+Proof.
+  intros Hk Hle H i c Hc Hl. unfold add_child in H. destruct (aget a p) as [pc|] eqn:Ep; [|discriminate].
+  destruct (nth_error (c_children pc) l) as [[j|]|]; try discriminate. inversion H; subst a'. clear H.
+  assert (Hkp : key <> p) by (intros ->; congruence).
+  destruct (Nat.eq_dec i p) as [->|Hip].
+  - rewrite aget_aset_same in Hc. inversion Hc; subst c. discriminate.
+  - rewrite aget_aset_other in Hc by congruence. destruct (Nat.eq_dec i key) as [->|Hik].
+    + rewrite aget_aset_same in Hc. inversion Hc; subst c. reflexivity.
+    + rewrite aget_aset_other in Hc by congruence. eapply Hle; eauto.
+Qed.
+Lemma update_fun_leaves_empty K a i f a' : leaves_empty K a -> update_fun a i f = Some a' -> leaves_empty K a'.
+Proof.
+  intros Hle H j c Hc Hl. unfold update_fun in H. destruct (aget a i) as [ci|] eqn:Ei; [|discriminate].
+  inversion H; subst a'. destruct (Nat.eq_dec j i) as [->|Hn].
+  - rewrite aget_aset_same in Hc. inversion Hc; subst c. cbn [c_leaf c_children] in *. eapply Hle; eauto.
+  - rewrite aget_aset_other in Hc by congruence. eapply Hle; eauto.
+Qed.
+Lemma agraft_node_leaves_empty alloc K s tf : fresh_alloc alloc ->
+  forall L a p1 l a', leaves_empty K a -> agraft_node alloc K s tf L a p1 l = Some a' -> leaves_empty K a'.
+Proof.
+  intros Hf. induction L as [| f | p ch IH] using ptree_ind'; intros a p1 l a' Hle H.
+  - inversion H; subst; exact Hle.
+  - cbn [agraft_node] in H. eapply add_child_leaves_empty; eauto.
+  - rewrite agraft_node_D in H.
+    destruct (add_child K a p1 l (mkcont (s_dec s p tf) Indet) (alloc a)) as [a1|] eqn:Ea; [|discriminate].
+    cbn [obnd] in H. pose proof (add_child_leaves_empty _ _ _ _ _ _ _ (Hf a) Hle Ea) as Hle1.
+    clear Ea Hle. revert a1 a' Hle1 H. generalize 0%nat. generalize (alloc a).
+    induction ch as [|c r IHr]; intros key l0 a1 a' Hle1 H; cbn [agraft_kids] in H.
+    + inversion H; subst; exact Hle1.
+    + apply Forall_cons_iff in IH as [IHc IHrest].
+      destruct (agraft_node alloc K s tf c a1 key l0) as [a2|] eqn:E2; [|discriminate]. cbn [obnd] in H.
+      eapply (IHr IHrest); [|exact H]. eapply IHc; eauto.
+Qed.
+Lemma agraft_kids_leaves_empty alloc K s tf : fresh_alloc alloc ->
+  forall ch a p1 l a', leaves_empty K a -> agraft_kids alloc K s tf ch a p1 l = Some a' -> leaves_empty K a'.
+Proof.
+  intros Hf. induction ch as [|c r IH]; intros a p1 l a' Hle H; cbn [agraft_kids] in H.
+  - inversion H; subst; exact Hle.
+  - destruct (agraft_node alloc K s tf c a p1 l) as [a2|] eqn:E2; [|discriminate]. cbn [obnd] in H.
+    eapply IH; [|exact H]. eapply agraft_node_leaves_empty; eauto.
+Qed.
+Theorem arena_compose_leaves_empty alloc K s L a a' : fresh_alloc alloc -> leaves_empty K a ->
+  arena_compose alloc K s L a = Some a' -> leaves_empty K a'.
+Proof.
+  intros Hf Hle H. unfold arena_compose in H. remember (terminal_keys a) as ts eqn:Ets. clear Ets.
+  revert a a' Hle H. induction ts as [|i r IH]; intros a a' Hle H; cbn [arena_compose_list] in H.
+  - inversion H; subst; exact Hle.
+  - destruct (arena_compose_at alloc K s L a i) as [a1|] eqn:E1; [|discriminate]. cbn [obnd] in H.
+    eapply IH; [|exact H]. unfold arena_compose_at in E1. destruct (aget a i) as [c|]; [|discriminate].
+    destruct L as [| f | p ch]; [discriminate | eapply update_fun_leaves_empty; eauto |].
+    destruct (update_fun a i (s_dec s p (ac_aff (c_val c)))) as [a0|] eqn:Eu; [|discriminate]. cbn [obnd] in E1.
+    eapply agraft_kids_leaves_empty; [exact Hf | | exact E1]. eapply update_fun_leaves_empty; eauto.
+Qed.
+
+(* two compositions in a row: the arena of f.compose(g).compose(h) abstracts to lift (lift t g) h *)
+Corollary arena_compose_twice alloc K s L1 L2 a a1 a2 : fresh_alloc alloc -> karity K L1 -> L1 <> U -> karity K L2 -> L2 <> U ->
+  leaves_empty K a -> arena_compose alloc K s L1 a = Some a1 -> arena_compose alloc K s L2 a1 = Some a2 ->
+  forall fuel i t, abs_at fuel a i = Some t -> exists F, abs_at F a2 i = Some (lift s (lift s t L1) L2).
+Proof.
+  intros Hf K1 N1 K2 N2 Hle H1 H2 fuel i t Ht.
+  destruct (arena_compose_abs alloc K s L1 a a1 Hf K1 N1 Hle H1 fuel i t Ht) as [F1 E1].
+  eapply (arena_compose_abs alloc K s L2 a1 a2 Hf K2 N2); eauto. eapply arena_compose_leaves_empty; eauto.
+Qed.
